@@ -179,7 +179,8 @@ def execute(case):
         w = ex.world
         if 'listener' in fault:
             # (every other listener fault is one whose text cannot be rendered)
-            w.listener_fault = {'on': fault['listener'], 'occ': fault['occ'], 'unprintable': fault['occ'] % 2 == 0 or fault['listener'] in ('on_process_paused', 'on_process_finished')}
+            # (... and a listener failing in a notification about the end of the process first takes itself off it)
+            w.listener_fault = {'on': fault['listener'], 'occ': fault['occ'], 'unprintable': fault['occ'] % 2 == 0 or fault['listener'] in ('on_process_paused', 'on_process_finished'), 'unsubscribe': fault['listener'] in ('on_process_finished', 'on_process_killed', 'on_process_excepted', 'on_process_played')}
             klass = 'listener'
         elif fault['hook'] == 'state-exit':
             klass = 'excepted'
